@@ -7,6 +7,14 @@ VERIF = os.path.dirname(os.path.dirname(os.path.abspath(__file__)))
 TECH = 'Verus contracts on functions extracted verbatim from /repo (deductive, Z3)'
 
 CHECKS = {
+    'C01': dict(
+        text='Proof of per-function obligations (partial): the mode/parenthesis guard G (exact shape of optional_paren; only '
+             'self-delimited constructs go unprotected; bodies evaluated in continued-code mode), the table reflow gate (is_formatable '
+             'implies no comment, no spread, named-before-cells, at least one cell, no special cell), exact spacing contract of the flow '
+             'engine, exact Context/Mode helpers, exact newline recognition, list engine never loses an item (counts).',
+        note='Partial by a wide margin: token-sequence preservation W is proved only for the functions listed in evidence; the parser and the '
+             'renderer are outside the contracts, so tree equivalence itself is never concluded. Trusted: shims, parser facts.',
+        ref='DESIGN.md 5/C01', technique=TECH),
     'C04': dict(
         text='Proof of per-function obligations (partial): line-comment transformer safety T -- over every layout the renderer can choose, '
              'no text ever follows an unterminated `//` comment and every converter result ends outside a comment -- for the flow engine and '
